@@ -726,9 +726,28 @@ def replay_one(run, path):
     m = rec["mismatch"]
     run.build()
     cf = os.path.join(run.work, "one.ndjson")
+    case, kind = m.get("case"), m.get("kind")
+    if m.get("flow") == "B" and "event" in m and "d" in m["event"] and "e" in m["event"]:
+        # a recorded engine event that TLC rejected: the reply the specification requires is in "want"
+        ev, want = m["event"], m.get("want")
+        if isinstance(want, list):
+            kind = {"set": "sel-set", "once": "sel-once", "seq": "sel-seq"}.get(ev.get("m", "set"), "sel-set")
+        elif isinstance(want, dict) and "t" in want:
+            kind = "eval"
+        else:
+            print("replay: this recorded event carries no required reply (%s): re-run ./check %s %s" % (m.get("fail"), rec["property"], run.tier))
+            return 2
+        case = {"k": kind, "d": ev["d"], "e": ev["e"], "cs": [ev["ctx"]], "r": [want]}
+        if ev.get("ns") is not None:
+            case["ns"] = ev["ns"]
+        if ev.get("nav"):
+            case["nav"] = ev["nav"]
+    elif not (isinstance(case, dict) and "r" in case):
+        print("replay: a %s finding (%s) is a recorded history, not a single case: re-run ./check %s %s" % (m.get("stage"), m.get("fail"), rec["property"], run.tier))
+        return 2
     with open(cf, "w") as f:
-        f.write(json.dumps(m["case"]) + "\n")
-    p = subprocess.run([run.xvh, "replay", "-in", cf, "-out", cf + ".mm", "-stats", cf + ".st", "-kind", m["kind"],
+        f.write(json.dumps(case) + "\n")
+    p = subprocess.run([run.xvh, "replay", "-in", cf, "-out", cf + ".mm", "-stats", cf + ".st", "-kind", kind,
                         "-render", "both", "-workers", "1"], capture_output=True, text=True)
     if p.returncode != 0:
         raise ToolingError("replay failed: " + p.stderr)
